@@ -21,6 +21,7 @@ import (
 	"reflect"
 	"strings"
 	"sync"
+	"sync/atomic"
 	"syscall"
 	"time"
 
@@ -273,6 +274,7 @@ func modeOverlap(dir string, seed uint64, n int, w *os.File) {
 	stop := make(chan struct{})
 	var mu sync.Mutex
 	var problems []string
+	var completed int64
 	reads := 0
 	for r := 0; r < 3; r++ {
 		wg.Add(1)
@@ -285,6 +287,7 @@ func modeOverlap(dir string, seed uint64, n int, w *os.File) {
 					return
 				default:
 				}
+				before := atomic.LoadInt64(&completed)
 				got, err := st2.Load()
 				mu.Lock()
 				reads++
@@ -292,6 +295,9 @@ func modeOverlap(dir string, seed uint64, n int, w *os.File) {
 					problems = append(problems, "load failed while saves were running: "+err.Error())
 				} else if p := checkLoaded(got, sizes); p != "" {
 					problems = append(problems, p)
+				} else if len(got.Jobs) == 0 && before > 0 {
+					// every snapshot has jobs: an empty load means the store file was absent although a save had completed before
+					problems = append(problems, fmt.Sprintf("the store was empty / absent for a reader although %d saves had already completed", before))
 				}
 				mu.Unlock()
 			}
@@ -309,6 +315,8 @@ func modeOverlap(dir string, seed uint64, n int, w *os.File) {
 					saveErrs++
 					problems = append(problems, "save failed: "+err.Error())
 					mu.Unlock()
+				} else {
+					atomic.AddInt64(&completed, 1)
 				}
 			}
 		}(k)
